@@ -40,7 +40,7 @@ def run(chk: harness.Check):
         "into_simple_recipe a reference index of kind K is pushed only into the step list of kind K, the Step takes clones of the three step lists by kind, "
         "section lists are extended by the same-kind step lists, Section.title is the core section name, and the recipe's component vectors are maps over "
         "the same-named core vectors; (D2) name←name, amount←quantity via extract_amount, descriptor←note; quantity←value(), units←unit(); "
-        "Number/Range/Text map to the same-named variant with start←start, end←end; (D3) deref_* use the same-kind vector; (D4) the GroupedQuantityKey "
+        "Number/Range/Text map to the same-named variant with start←start, end←end; names, notes, units and text values pass only through copying/borrowing conversions (no trim/case/format on the way); (D3) deref_* use the same-kind vector; (D4) the GroupedQuantityKey "
         "built in each arm of into_group_quantity carries the arm's variant, merge_grouped_quantities looks the bucket up with a clone of the incoming key "
         "and adds incoming into stored per field, combine_ingredients passes 0..len, expand_with_ingredients folds each listed index once. "
         "No amounts are computed.")
@@ -263,6 +263,33 @@ def d1_kinds(chk, F):
                        f"CooklangRecipe.{fld} must be a map over recipe.{fld}; it is `{src}` = {str(init)[:80]}", sample=f"CooklangRecipe.{fld} ← recipe.{fld}.iter().map(into)")
 
 
+# conversions that hand a string over unchanged (copy, borrow, wrap); anything else between the core field and the FFI field
+# (trim, to_lowercase, replace, format!, ...) makes the exposed text differ from the core recipe for some input
+VERBATIM = ("Clone>::clone", "ToString>::to_string", "ToOwned>::to_owned", "Into<U>>::into", "From<T>>::from", "Option::<T>::map", "Option::<T>::as_ref",
+            "Option::<T>::as_deref", "Option::<T>::cloned", "Option::<T>::unwrap_or_default", "Option::<T>::map_or_else", "Option::<T>::and_then",
+            "Deref>::deref", "AsRef<T>>::as_ref", "AsRef<str>>::as_ref", "Borrow<T>>::borrow", "String::as_str", "String::new", "Default>::default",
+            "Quantity::<V>::unit", "Quantity::<V>::value", "Cow::<B>::into_owned", "String::from", "<impl str>::to_string", "<impl str>::to_owned",
+            "Option::<T>::as_mut", "Option::<T>::unwrap_or", "String::clone")
+
+
+def _calls_with_closures(F, e, depth=0):
+    out = []
+    for n in walk(e):
+        if n[0] == "call":
+            out.append(n[1])
+        elif n[0] == "agg" and n[1] == "closure" and n[2] in F.funcs and depth < 3:
+            for b, t in F.funcs[n[2]].calls():
+                out.append(callee_key(t) or "?")
+    return out
+
+
+def _verbatim(chk, F, ff, e, key, where, what):
+    extra = sorted({c for c in _calls_with_closures(F, e) if not c.endswith(VERBATIM)})
+    chk.expect(not extra, "C19.D2-fields", f"{key}|verbatim", where,
+               f"{what} is not handed over verbatim: it passes through {', '.join(x.rsplit('::', 2)[-2] + '::' + x.rsplit('::', 1)[-1] for x in extra[:4])} — "
+               "the FFI view then differs from the core recipe for some spelling", sample=f"{where}: {what} copied unchanged")
+
+
 def d2_fields(chk, F):
     want = {
         "Ingredient": {"name": ".name", "amount": ".quantity", "descriptor": ".note"},
@@ -288,6 +315,8 @@ def d2_fields(chk, F):
             ok = ok and not any(o + ")" in t for o in others)
             chk.expect(ok, "C19.D2-fields", f"{ty}.{fld}", f"{ff.file}:{s.get('line')}", f"bindings {ty}.{fld} must come from the core {src[1:]}; it is {t[:90]}",
                        sample=f"{ty}.{fld} ← core{src}")
+            if fld != "amount":
+                _verbatim(chk, F, ff, resolve(ff, d[fld]), f"{ty}.{fld}", f"{ff.file}:{s.get('line')}", f"bindings {ty}.{fld}")
             if fld == "amount":
                 clos = [n[2] for n in walk(resolve(ff, d[fld])) if n[0] == "agg" and n[1] == "closure"]
                 okc = any(calls_to(F.funcs[c], "extract_amount") for c in clos if c in F.funcs)
@@ -304,6 +333,8 @@ def d2_fields(chk, F):
                 oku = ("unit(" in u) if isq else (u == "Option::None{}")
                 chk.expect(okq and oku, "C19.D2-fields", f"extract_amount|{'Quantity' if isq else 'Value'}", f"{ff.file}:{s.get('line')}",
                            f"extract_amount builds quantity={q[:60]}, units={u[:60]}", sample=f"quantity ← extract_value(value), units ← {'unit()' if isq else 'None'}")
+                if isq:
+                    _verbatim(chk, F, ff, resolve(ff, d["units"]), "extract_amount|units", f"{ff.file}:{s.get('line')}", "the unit of an amount")
     chk.floor("C19.D2-fields", "extract_amount impls", seen, 2)
     f = F.funcs.get(B + "model::extract_value")
     if f is None:
@@ -318,6 +349,10 @@ def d2_fields(chk, F):
             t = got.get(v, {}).get(fld, "")
             chk.expect(frag in t, "C19.D2-fields", f"extract_value|{v}.{fld}", f"{f.file}:{f.line}",
                        f"bindings Value::{v}.{fld} must come from the core value's {frag}; it is {t[:80] or 'missing'}", sample=f"Value::{v}.{fld} ← core {frag}")
+            if v == "Text":
+                for ff, i, s_, d in aggregates(F, f.key, "model::Value"):
+                    if s_["rv"]["variant"] == "Text":
+                        _verbatim(chk, F, ff, resolve(ff, d[fld]), "extract_value|Text.value", f"{ff.file}:{s_.get('line')}", "a text value")
             if v in ("Number", "Range"):
                 # the amount exposed is the core number's full value (Number::value: whole + err + num/den), read directly
                 okv = t.startswith("Number::value(") and t.count("(") - t.count("as ") <= 3 and "Number::value" in t and not any(
